@@ -1157,6 +1157,10 @@ class Checker:
         if ev.get("what") == "other-activity":
             self.stats["other_instance_callbacks"] = self.stats.get("other_instance_callbacks", 0) + ev.get("callbacks", 0)
             self.stats["other_instance_steps"] = self.stats.get("other_instance_steps", 0) + 1
+        if ev.get("what") == "incomplete-construct":
+            self.stats["incomplete_constructions"] = self.stats.get("incomplete_constructions", 0) + (ev.get("expected") == "rejected")
+            if ev.get("got") != ev.get("expected"):
+                self.rej("C16.definition-check-per-instance", f"another machine of the class over a bare model (names only other providers have: {ev.get('missing')}) was {ev.get('got')}, expected {ev.get('expected')}")
         if ev.get("what") == "foreign-trigger-fired":
             self.rej("C13.send-delivers-to-receiver", f"sm.send(<trigger {ev.get('event')} of another machine>) fired the event on that other machine")
         if ev.get("what") == "bound-trigger-missing":
